@@ -98,129 +98,165 @@ def run_case(case):
     M = specmod.build_model(sp, "ctor")
     t0, dt, n = GRIDS[case["grid"]]
     tp = t0 + dt * np.arange(n)
-    kwargs = {"stochastic": case["stochastic"], "delay": case["delay"], "safe": case["safe"], "return_dataframe": case["df"]}
-    x0vec = M.get_species_array().copy()
-    pvec = np.array(M.get_parameter_values()).copy()
-    if case["volume"] == "off":
-        kwargs["volume"] = False
-    elif case["volume"] == "true":
-        kwargs["volume"] = True
-    elif case["volume"] == "num":
-        kwargs["volume"] = 2.0
-    elif case["volume"] == "obj":
-        v = Volume()
-        v.py_set_volume(1.5)
-        kwargs["volume"] = v
-    else:
-        v = StochasticTimeThresholdVolume(1.0, 2.0, 0.0)   # doubles in 1 time unit, divides at volume 2
-        v.py_initialize(x0vec.copy(), pvec.copy(), 0.0, 1.0)
-        kwargs["volume"] = v
-    if case["src"] == "model":
-        kwargs["Model"] = M
-    elif case["src"] == "plain":
-        kwargs["Interface"] = ModelCSimInterface(M)
-    else:
-        kwargs["Interface"] = SafeModelCSimInterface(M)
-    brandom.py_seed_random(case["seed"])
-    oc = opt_class(case)
-    try:
-        res = py_simulate_model(tp.copy(), **kwargs)
-    except BaseException as e:
-        tb = traceback.extract_tb(e.__traceback__)
-        inner = tb[-1].name if tb else "?"
-        if isinstance(e, (ValueError, TypeError)) and not isinstance(e, UnboundLocalError) and inner.endswith("py_simulate_model"):
-            C["explicit_rejections"] += 1
-            return {"viol": [], "counters": dict(C), "nontrivial": True, "classes": ["rejected:" + oc]}
-        return {"viol": [{"key": "C07/fails-from-inside:%s:%s" % (oc, type(e).__name__),
-                          "msg": "py_simulate_model(%s) raised %s from %s: %s" % (fmt(case), type(e).__name__, inner, str(e)[:200])}],
-                "counters": dict(C), "nontrivial": True}
-    C["results_checked"] += 1
-    uses_vol = case["volume"] != "off" and (case["stochastic"] or bool(case["delay"]))
-    dividing = case["volume"] == "dividing" and uses_vol
-    species = M.get_species_list()
-    nsp = len(species)
+    src_obj = {"plain": lambda: ModelCSimInterface(M), "safe": lambda: SafeModelCSimInterface(M), "model": lambda: None}[case["src"]]()
 
-    def bad(key, msg):
-        viol.append({"key": "C07/%s:%s" % (key, oc), "msg": "py_simulate_model(%s): %s" % (fmt(case), msg)})
+    def make_kwargs():
+      kwargs = {"stochastic": case["stochastic"], "delay": case["delay"], "safe": case["safe"], "return_dataframe": case["df"]}
+      x0vec = M.get_species_array().copy()
+      pvec = np.array(M.get_parameter_values()).copy()
+      if case["volume"] == "off":
+          kwargs["volume"] = False
+      elif case["volume"] == "true":
+          kwargs["volume"] = True
+      elif case["volume"] == "num":
+          kwargs["volume"] = 2.0
+      elif case["volume"] == "obj":
+          v = Volume()
+          v.py_set_volume(1.5)
+          kwargs["volume"] = v
+      else:
+          v = StochasticTimeThresholdVolume(1.0, 2.0, 0.0)   # doubles in 1 time unit, divides at volume 2
+          v.py_initialize(x0vec.copy(), pvec.copy(), 0.0, 1.0)
+          kwargs["volume"] = v
+      if case["src"] == "model":
+          kwargs["Model"] = M
+      elif case["src"] == "plain":
+          kwargs["Interface"] = src_obj
+      else:
+          kwargs["Interface"] = src_obj
+      return kwargs
 
-    if case["df"]:
-        if not isinstance(res, pandas.DataFrame):
-            bad("not-a-dataframe", "returned %r" % type(res))
-            return {"viol": viol, "counters": dict(C), "nontrivial": True}
-        cols = list(res.columns)
-        exp_cols = (species if case["src"] == "model" else list(range(nsp))) + ["time"] + (["volume"] if uses_vol else [])
-        if cols != exp_cols:
-            bad("columns", "columns %r, expected %r" % (cols, exp_cols))
-        rows = len(res)
+    def one_call(tag):
+        kwargs = make_kwargs()
+        brandom.py_seed_random(case["seed"])
+        oc = opt_class(case)
         try:
-            times = np.array(res["time"], dtype=float)
-        except Exception as e:
-            times = None
-            bad("time-axis", "time column unusable: %r" % (list(res["time"])[:3],))
-        data = res[cols[:nsp]].to_numpy(dtype=float) if len(cols) >= nsp else None
-        vol = np.array(res["volume"], dtype=float) if "volume" in cols else None
-        divided = None
-    else:
-        try:
-            data = np.array(res.py_get_result(), dtype=float)
-            rows = data.shape[0]
-        except Exception as e:
-            bad("result-array", "py_get_result failed: %r" % e)
-            return {"viol": viol, "counters": dict(C), "nontrivial": True}
-        try:
-            tt = res.py_get_timepoints()
-            times = np.array(tt, dtype=float) if tt is not None else None
-            if times is None or times.ndim != 1:
-                bad("time-axis", "py_get_timepoints() returned %r" % (tt,))
-                times = None
-        except Exception as e:
-            times = None
-            bad("time-axis", "py_get_timepoints failed: %r" % e)
-        vol = None
-        divided = None
-        if uses_vol:
+            res = py_simulate_model(tp.copy(), **kwargs)
+        except BaseException as e:
+            tb = traceback.extract_tb(e.__traceback__)
+            inner = tb[-1].name if tb else "?"
+            if isinstance(e, (ValueError, TypeError)) and not isinstance(e, UnboundLocalError) and inner.endswith("py_simulate_model"):
+                C["explicit_rejections"] += 1
+                return {"viol": [], "counters": dict(C), "nontrivial": True, "classes": ["rejected:" + oc]}
+            return {"viol": [{"key": "C07/fails-from-inside:%s:%s" % (oc, type(e).__name__),
+                              "msg": "py_simulate_model(%s)%s raised %s from %s: %s" % (fmt(case), tag, type(e).__name__, inner, str(e)[:200])}],
+                    "counters": dict(C), "nontrivial": True}
+        C["results_checked"] += 1
+        uses_vol = case["volume"] != "off" and (case["stochastic"] or bool(case["delay"]))
+        dividing = case["volume"] == "dividing" and uses_vol
+        species = M.get_species_list()
+        nsp = len(species)
+
+        def bad(key, msg):
+            viol.append({"key": "C07/%s:%s" % (key, oc), "msg": "py_simulate_model(%s)%s: %s" % (fmt(case), tag, msg)})
+
+        if case["df"]:
+            if not isinstance(res, pandas.DataFrame):
+                bad("not-a-dataframe", "returned %r" % type(res))
+                return {"viol": viol, "counters": dict(C), "nontrivial": True}
+            cols = list(res.columns)
+            exp_cols = (species if case["src"] == "model" else list(range(nsp))) + ["time"] + (["volume"] if uses_vol else [])
+            if cols != exp_cols:
+                bad("columns", "columns %r, expected %r" % (cols, exp_cols))
+            rows = len(res)
             try:
-                vol = np.array(res.py_get_volume(), dtype=float)
-                divided = bool(res.py_cell_divided())
+                times = np.array(res["time"], dtype=float)
             except Exception as e:
-                bad("volume-accessors", "volume accessors failed: %r" % e)
-        if data.ndim != 2 or data.shape[1] != nsp:
-            bad("result-shape", "result shape %s for %d species" % (data.shape, nsp))
-    # rows / time axis
-    if dividing:
-        if not (1 <= rows <= n):
-            bad("row-count", "%d rows for %d requested times (dividing volume)" % (rows, n))
-        if divided is not None and rows < n and not divided:
-            bad("divided-flag", "result truncated to %d rows but not flagged as divided" % rows)
-        if divided is not None and rows == n and divided and False:
+                times = None
+                bad("time-axis", "time column unusable: %r" % (list(res["time"])[:3],))
+            data = res[cols[:nsp]].to_numpy(dtype=float) if len(cols) >= nsp else None
+            vol = np.array(res["volume"], dtype=float) if "volume" in cols else None
+            divided = None
+        else:
+            try:
+                data = np.array(res.py_get_result(), dtype=float)
+                rows = data.shape[0]
+            except Exception as e:
+                bad("result-array", "py_get_result failed: %r" % e)
+                return {"viol": viol, "counters": dict(C), "nontrivial": True}
+            try:
+                tt = res.py_get_timepoints()
+                times = np.array(tt, dtype=float) if tt is not None else None
+                if times is None or times.ndim != 1:
+                    bad("time-axis", "py_get_timepoints() returned %r" % (tt,))
+                    times = None
+            except Exception as e:
+                times = None
+                bad("time-axis", "py_get_timepoints failed: %r" % e)
+            vol = None
+            divided = None
+            if uses_vol:
+                try:
+                    vol = np.array(res.py_get_volume(), dtype=float)
+                    divided = bool(res.py_cell_divided())
+                except Exception as e:
+                    bad("volume-accessors", "volume accessors failed: %r" % e)
+            if data.ndim != 2 or data.shape[1] != nsp:
+                bad("result-shape", "result shape %s for %d species" % (data.shape, nsp))
+        # rows / time axis
+        if dividing:
+            if not (1 <= rows <= n):
+                bad("row-count", "%d rows for %d requested times (dividing volume)" % (rows, n))
+            if divided is not None and rows < n and not divided:
+                bad("divided-flag", "result truncated to %d rows but not flagged as divided" % rows)
+            if divided is not None and rows == n and divided and False:
+                pass
+            # doubling time 1.0 from volume 1 -> division at t=1.0, inside every grid used here
+            if rows == n and tp[-1] > 1.0 + 2 * dt:
+                bad("no-division", "dividing volume passed but the full grid was returned")
+        else:
+            if rows != n:
+                bad("row-count", "%d rows for %d requested times" % (rows, n))
+            if divided:
+                bad("divided-flag", "flagged as divided without a dividing volume")
+        if times is not None:
+            if len(times) != rows or not np.array_equal(times, tp[:rows]):
+                bad("time-axis", "time axis %r... differs from the requested times %r..." % (list(times[:3]), list(tp[:3])))
+        if vol is not None:
+            if len(vol) != rows or not (vol > 0).all():
+                bad("volume-column", "volume trace length %d / non-positive entries (rows %d): %r" % (len(vol), rows, list(vol[:4])))
+        # first row = initial condition with assignment rules applied
+        if data is not None and rows >= 1 and data.ndim == 2 and data.shape[1] == nsp:
+            x = {s: float(sp["x0"].get(s, 0)) for s in species}
+            p = dict(sp["params"])
+            V0 = {"off": 1.0, "true": 1.0, "num": 2.0, "obj": 1.5, "dividing": 1.0}[case["volume"]]
+            ref.apply_rules(sp, x, p, 0.0, V0 if uses_vol else 1.0)
+            exp0 = np.array([x[s] for s in species])
+            if not np.allclose(data[0], exp0, rtol=1e-12, atol=0):
+                bad("first-row", "first row %r, expected initial condition with rules %r" % (list(data[0]), list(exp0)))
+            if not np.isfinite(data).all() and case["model"] != "__":
+                bad("non-finite", "non-finite entries in the result")
+        return {"viol": viol[:4], "counters": dict(C), "nontrivial": not (not case["stochastic"] and case["delay"] is None and not case["safe"]
+                and case["volume"] == "off" and case["df"] and case["src"] == "model"), "classes": ["result:" + oc]}
+
+    # a history on ONE model / interface object: an optional earlier call with other options, the lattice call, and the same
+    # call again.  Every call with the lattice options must return a complete, correctly labelled result whose first row is
+    # the model's initial condition (with rules) - whatever was simulated on the object before.
+    import random as _random
+    rr = _random.Random(case["seed"])
+    prior = rr.choice([None, "delay", "volume", "det", "delay_volume", "stochastic"])
+    if prior is not None:
+        pk = {"delay": dict(stochastic=True, delay=True), "volume": dict(stochastic=True, volume=2.0), "det": dict(stochastic=False),
+              "delay_volume": dict(stochastic=True, delay=True, volume=1.5), "stochastic": dict(stochastic=True)}[prior]
+        if case["src"] == "model":
+            pk["Model"] = M
+        else:
+            pk["Interface"] = src_obj
+        brandom.py_seed_random(case["seed"] + 17)
+        try:
+            py_simulate_model(tp.copy(), return_dataframe=False, **pk)
+            C["prior_calls"] += 1
+        except BaseException:
             pass
-        # doubling time 1.0 from volume 1 -> division at t=1.0, inside every grid used here
-        if rows == n and tp[-1] > 1.0 + 2 * dt:
-            bad("no-division", "dividing volume passed but the full grid was returned")
-    else:
-        if rows != n:
-            bad("row-count", "%d rows for %d requested times" % (rows, n))
-        if divided:
-            bad("divided-flag", "flagged as divided without a dividing volume")
-    if times is not None:
-        if len(times) != rows or not np.array_equal(times, tp[:rows]):
-            bad("time-axis", "time axis %r... differs from the requested times %r..." % (list(times[:3]), list(tp[:3])))
-    if vol is not None:
-        if len(vol) != rows or not (vol > 0).all():
-            bad("volume-column", "volume trace length %d / non-positive entries (rows %d): %r" % (len(vol), rows, list(vol[:4])))
-    # first row = initial condition with assignment rules applied
-    if data is not None and rows >= 1 and data.ndim == 2 and data.shape[1] == nsp:
-        x = {s: float(sp["x0"].get(s, 0)) for s in species}
-        p = dict(sp["params"])
-        V0 = {"off": 1.0, "true": 1.0, "num": 2.0, "obj": 1.5, "dividing": 1.0}[case["volume"]]
-        ref.apply_rules(sp, x, p, 0.0, V0 if uses_vol else 1.0)
-        exp0 = np.array([x[s] for s in species])
-        if not np.allclose(data[0], exp0, rtol=1e-12, atol=0):
-            bad("first-row", "first row %r, expected initial condition with rules %r" % (list(data[0]), list(exp0)))
-        if not np.isfinite(data).all() and case["model"] != "__":
-            bad("non-finite", "non-finite entries in the result")
-    return {"viol": viol[:4], "counters": dict(C), "nontrivial": not (not case["stochastic"] and case["delay"] is None and not case["safe"]
-            and case["volume"] == "off" and case["df"] and case["src"] == "model"), "classes": ["result:" + oc]}
+    last = None
+    for k in range(2):
+        tag = "" if (k == 0 and prior is None) else " [call #%d on this object%s]" % (k + 1, ", after an earlier %s run" % prior if prior else "")
+        last = one_call(tag)
+        if last["viol"] or "rejected" in "".join(last.get("classes", [])):
+            break
+        C["calls"] += (k > 0)
+    last["counters"] = dict(C)
+    return last
 
 
 def fmt(c):
